@@ -48,12 +48,15 @@ Proof. exact exact_meaning. Qed.
 Print Assumptions C09_exact_meaning.
 
 (** Schedule level, for ALL finite histories of public modifications of the model (Schedule.v, which is compared
-    line by line with the implementation on every generated history): the cached maintenance violation and the
-    cached unserved passengers of every reachable schedule equal their recomputed values. *)
-From RS Require Import Transition Schedule SchedInv SchedViolFacts SchedUnservedFacts.
+    line by line with the implementation on every generated history): the cached maintenance violation, the
+    cached unserved passengers and the cached costs (sum of the tours' costs plus the staff term) of every reachable schedule equal their recomputed values. *)
+From RS Require Import Transition Schedule SchedInv SchedViolFacts SchedUnservedFacts SchedCostsFacts.
 Theorem C09_reachable_violation_exact : forall nw, stmt_reachable_viol nw.
 Proof. exact reachable_viol. Qed.
 Print Assumptions C09_reachable_violation_exact.
 Theorem C09_reachable_unserved_exact : forall nw, stmt_reachable_unserved nw.
 Proof. exact reachable_unserved. Qed.
 Print Assumptions C09_reachable_unserved_exact.
+Theorem C09_reachable_costs_exact : forall nw, stmt_reachable_costs nw.
+Proof. exact reachable_costs. Qed.
+Print Assumptions C09_reachable_costs_exact.
